@@ -4,12 +4,15 @@ Theorems: coq/C04/Properties_C04.v. Spec = the shared reference interpreter coq/
 goes through Lang.Sem.coerce, global initialisers included);
 Mech = today's store paths of /repo (coq/C04/Model.v) over the min/max table, rejection test and
 unsigned clamp re-extracted from the C++ into coq/C04/Gen_RangeTable.v by translators/ranges.py on
-every run.
-Tie: (1) the exhaustive matrix types x store paths x boundary values, one store per program, run on
-/repo's main, on the extracted Ref (bin/lang_model) and asked of the extracted Mech
-(bin/c04_model mech); on cells where Mech = Spec main must agree with Ref, on the other cells (the
+every run; the typed store entry point VariableManager::assign_variable is modelled with its type hint
+(mech_assign_variable: the range of the TARGET's type is checked whatever hint the caller passes).
+Tie: (1) the exhaustive matrix types x store paths x boundary values, one store per program: CbCore cells run on
+/repo's main, on the extracted Ref (bin/lang_model) and asked of the extracted Mech (bin/c04_model mech); the same
+cells again with the type written through a typedef alias; cells outside CbCore (multiple declarations, ++/-- as an
+expression, function-pointer calls, whole-array stores, struct members, pointers, references) with the Spec conversion
+as the expected transcript. On cells where Mech = Spec main must agree with Ref, on the other cells (the
 recorded defects) main must agree with Mech (KNOWN-FINDING) or with Ref (fixed); (2) random programs
-mixing the store paths; (3) hand-written replays of the findings outside CbCore.
+mixing the store paths; (3) hand-written replays of the findings.
 """
 import collections
 import json
@@ -40,17 +43,24 @@ META = {
             "unchanged. The min/max table, the rejection test and the unsigned clamp are re-extracted from TypeManager::check_type_range / "
             "clamp_unsigned_value on every run; range_table_is_documented and range_check_is_closed_interval are stated about the generated "
             "definitions, so an edited bound or comparison breaks the obligation itself. A model of each C++ store path (Mech) is proved equal "
-            "to the demanded conversion on declaration, assignment, compound assignment, ++/--, argument passing, function results, global "
-            "scalars, multi-dimensional stores, nested literals and signed 1-D elements, and proved NOT to be on eight other paths "
-            "(_refuted theorems = recorded findings). main, the extracted reference "
-            "interpreter and the extracted Mech are compared on the exhaustive matrix 9 types x 34 store paths x 12 boundary values (one store "
-            "per program) and on random programs mixing the paths, on every run.",
+            "to the demanded conversion on declaration (also from a call, a ?:, through a typedef alias, in a multiple declaration), assignment "
+            "(also from a call and from a ?: - assign_variable_checks_target_type: VariableManager::assign_variable checks the range of the "
+            "TARGET's type for every type hint its callers pass, except a bool hint), compound assignment, ++/--, argument passing, function "
+            "results, global scalars (const ones too), multi-dimensional stores, nested literals and signed 1-D elements, and proved NOT to be "
+            "on the other paths (_refuted theorems = recorded findings: bool-inferred ?: branch, typedef + ?:, statics after initialisation, "
+            "global arrays, whole-array stores, struct members, pointers, references). main, the extracted reference interpreter and the "
+            "extracted Mech are compared on every run on the exhaustive matrix 9 types x (81 CbCore store-path variants, each also through a "
+            "typedef alias for the 5 signed types, + 26 variants outside CbCore) x 13 boundary values (one store per program, about 15 600 "
+            "programs) and on random programs mixing the paths (assignments from ?: included; only a bool-inferred, not 0/1-valued branch is avoided).",
     "note": "Trusted: Coq kernel, no axioms (all Print Assumptions closed); extraction (ExtrOcamlBasic, ExtrOcamlString) + OCaml driver "
             "translators/ranges.py (regular expressions over two C++ functions; an "
             "unrecognised shape is reported as `translator: stale` and the check falls back to the correspondence run); the Mech model is a "
-            "hand-written reading of the named call sites, tied to main by differential testing only. Outside CbCore (structs, pointers, "
-            "references) the property is only probed by hand-written replays (all of them recorded findings). `unsigned char` is rejected by "
-            "the parser, so the matrix has 9 types; values outside int64 cannot be written in Cb.",
+            "hand-written reading of the named call sites, tied to main by differential testing only. Cells outside CbCore (multiple "
+            "declarations, struct members, pointers, references, whole-array stores, function-pointer calls) have no Ref run: their expected "
+            "transcript is the Spec conversion (Lang.Sem.coerce) of the one store, printed by the harness. `unsigned char` is rejected by "
+            "the parser, so the matrix has 9 types; `typedef unsigned T` is rejected too (typedef variants: signed types only); values outside "
+            "int64 cannot be written in Cb. Assignment used as an expression crashes the interpreter (finding C04-assignment-expression-crash), "
+            "so the store path behind it is not exercised.",
 }
 
 # Mech path -> finding that explains a cell on which Mech differs from Spec
@@ -133,8 +143,40 @@ def differential(impl, sexprs, fuel=4000, model_timeout=1800, rewrite=None):
     return run_impl(impl, ms, idx)
 
 
+def fast_impl_run(impl, srcs, timeout=10):
+    """like langrun.impl_run (one main process per program, cwd = the build dir, stdout / stderr / status captured separately), but the
+    processes are spawned by one `xargs -P` instead of one Python thread each: the matrix has 13 000 programs of 3 ms"""
+    import shutil
+    import subprocess
+    import tempfile
+    if len(srcs) < 64:
+        return langrun.impl_run(impl, srcs, timeout=timeout)
+    d = tempfile.mkdtemp(prefix="c04run-", dir=common.SCRATCH_ROOT)
+    try:
+        for k, src in enumerate(srcs):
+            with open(os.path.join(d, "%d.cb" % k), "w", encoding="utf-8", errors="surrogateescape") as fh:
+                fh.write(src)
+        script = ('cd "$0" || exit 2; for k in "$@"; do timeout -k 2 %d ./main "$D/$k.cb" > "$D/$k.out" 2> "$D/$k.err"; '
+                  'echo $? > "$D/$k.rc"; done' % timeout)
+        p = subprocess.run(["xargs", "-P", str(common.NCPU), "-n", "40", "sh", "-c", script, impl],
+                           input=("\n".join(str(k) for k in range(len(srcs))) + "\n").encode(), env=dict(os.environ, D=d),
+                           stdout=subprocess.PIPE, stderr=subprocess.PIPE, timeout=3600)
+        res = []
+        for k in range(len(srcs)):
+            try:
+                rc = int(open(os.path.join(d, "%d.rc" % k)).read().strip())
+                o = open(os.path.join(d, "%d.out" % k), "rb").read().decode("utf-8", "replace")
+                e = open(os.path.join(d, "%d.err" % k), "rb").read().decode("utf-8", "replace")
+            except (OSError, ValueError):
+                rc, o, e = common.run_cb(impl, srcs[k], timeout=timeout)      # the batch runner did not get to it: run it the slow way
+            res.append({"rc": rc, "out": o, "err": e})
+        return res
+    finally:
+        shutil.rmtree(d, ignore_errors=True)
+
+
 def run_impl(impl, ms, idx):
-    irs = langrun.impl_run(impl, [ms[k]["src"] for k in idx])
+    irs = fast_impl_run(impl, [ms[k]["src"] for k in idx])
     res = [{"model": m, "impl": None} for m in ms]
     bad = []
     for k, ir in zip(idx, irs):
@@ -186,6 +228,14 @@ def spec_query(q):
 def run(rep):
     seed, tier = rep.seed, rep.tier
     quick = tier == "quick"
+    import time
+    t_last = [time.time()]
+    phase_s = {}
+
+    def lap(name):
+        now = time.time()
+        phase_s[name] = round(phase_s.get(name, 0) + now - t_last[0], 1)
+        t_last[0] = now
     # (0) re-extract the range table, the rejection test and the unsigned clamp from the current C++ text
     gen = os.path.join(common.COQ, PROP, "Gen_RangeTable.v")
     with common.Lock("c04-gen"):
@@ -201,7 +251,9 @@ def run(rep):
     common.proof_coverage(rep, cq)
     proof_broken = not cq["ok"]
     common.ensure_model(PROP)
+    lap("translator+coq+model")
     impl = common.build_impl("plain")
+    lap("build")
 
     violations = []          # (name, payload, text)
     known_cells = collections.Counter()
@@ -279,20 +331,24 @@ def run(rep):
                                        False))
 
     for ps in range(passes):
-        cases = gen_c04.matrix(rng_for(seed, "c04-matrix", ps))
+        cases = gen_c04.matrix(rng_for(seed, "c04-matrix", ps), all_typedef_kinds=not quick)
         sx = [c[0] for c in cases]
         rewrite = {k: (lambda src, t=meta["type"]: gen_c04.typedef_source(src, t)) for k, (_, meta) in enumerate(cases) if meta.get("typedef")}
+        lap("matrix-generate")
         res, bad = differential(impl, sx, rewrite=rewrite)
+        lap("matrix-ref+main")
         mech = mech_run([c[1]["query"] for c in cases])
         spec = mech_run([spec_query(c[1]["query"]) for c in cases])
         n_eval += len(cases)
         judge(cases, res, bad, mech, spec, ps)
+        lap("matrix-mech+judge")
         raw = gen_c04.raw_matrix(rng_for(seed, "c04-raw", ps))
         mech = mech_run([c[1]["query"] for c in raw])
         spec = mech_run([spec_query(c[1]["query"]) for c in raw])
         res, bad = raw_differential(impl, raw, spec)
         n_eval += len(raw)
         judge(raw, res, bad, mech, spec, ps)
+        lap("matrix-raw")
 
     # (3) random programs mixing the store paths
     n_mixed = 2500 if quick else 30000
@@ -321,6 +377,7 @@ def run(rep):
         res += r
         bad += [(k + a, w) for k, w in b]
     n_eval += len(progs)
+    lap("random")
     range_errors = 0
     for p, r, o in zip(progs, res, origin):
         hist["random:" + o] += 1
@@ -405,7 +462,9 @@ def run(rep):
         if rc != 0:
             rep.violation("coqchk", {"log": (o + e)[-3000:]}, "coqchk rejects the compiled closure of Properties_C04", True)
 
+    lap("shrink+replays+rest")
     rep.coverage.update({
+        "phase_seconds": phase_s,
         "evaluations": n_eval, "distinct_nontrivial": nontriv,
         "rule": "matrix: every (type, store path, boundary-value kind) cell as a one-store CbCore program printed by the extracted printer and run on "
                 "main, on the extracted Ref and asked of the extracted Mech; random: generated programs mixing store paths, run on main "
@@ -413,7 +472,7 @@ def run(rep):
                 "ends in a runtime error",
         "exhaustive": True,
         "exhaustive_scope": "the matrix %d types x (%d CbCore store-path variants, each again with the type written through a typedef alias for "
-                            "the 5 signed types, + %d variants outside CbCore) x %d value kinds (cells that cannot be expressed - value outside "
+                            "the 5 signed types - quick tier: 7 of the value kinds -, + %d variants outside CbCore) x %d value kinds (cells that cannot be expressed - value outside "
                             "int64, no in-range start value - are skipped by construction); random programs are a sample" % (
                                 len(gen_c04.TYPES), len(gen_c04.PATHS), len(gen_c04.RAW_PATHS), len(gen_c04.KINDS)),
         "matrix_cells_run": matrix_cells, "matrix_cells_by_group": dict(group_cells), "matrix_passes": passes, "matrix_cells_where_mech_differs_from_spec": defect_cells,
@@ -434,6 +493,8 @@ def run(rep):
         "random programs stay on store paths where Mech = Spec (gen_c04.mixed_program, gen_core.Opts.avoid_*)",
         "random programs that the reference ends with a division-by-zero or bounds error are not compared here (C01 / C05 decide them)",
         "`unsigned char` is rejected by the parser: 9 of the 10 types of the property are enumerated",
+        "cells outside CbCore are judged against the Spec conversion of their one store (no whole-program reference run)",
+        "a top-level ?: of an assignment is wrapped in `+ 0` only when a branch may be inferred bool with a value other than 0/1 (finding C04-ternary-assign-bool-branch)",
     ]
 
 
